@@ -20,6 +20,27 @@ type C04Case struct {
 	Mode  string `json:"mode"`            // "bytes" or "doc"
 	Bytes RawBytes `json:"bytes,omitempty"` // mode bytes: arbitrary input (Latin-1 mapped in JSON)
 	Root  *V     `json:"root,omitempty"`  // mode doc: all prefixes and all UTF-8 injections of Root's text
+	// mode deep: Unit repeated Depth times, optionally followed by the matching closers
+	Unit   string `json:"unit,omitempty"`
+	Depth  int    `json:"depth,omitempty"`
+	Closed bool   `json:"closed,omitempty"`
+}
+
+// deepNestingLimit: nesting depths above this are never generated. The parser recurses once per
+// level without a bound, and a few million levels exhaust the goroutine stack, which the Go
+// runtime turns into a process abort (known finding F1 in DESIGN.md). Such a case only runs
+// when it is replayed on its own (the driver probes it in a separate process).
+const deepNestingLimit = 200000
+
+var deepUnits = []string{"[", "{\"a\":", "[{\"k\":", "{\"\":["}
+
+func deepText(c *C04Case) string {
+	closers := map[string]string{"[": "]", "{\"a\":": "}", "[{\"k\":": "}]", "{\"\":[": "]}"}
+	s := strings.Repeat(c.Unit, c.Depth)
+	if c.Closed {
+		s += "1" + strings.Repeat(closers[c.Unit], c.Depth)
+	}
+	return s
 }
 
 // RawBytes is a byte string that is stored in replay files as a JSON string
@@ -79,7 +100,7 @@ func genBytes(t *rapid.T) []byte {
 			sb.WriteString([]string{"[", "{", " [", "x{", "\n\n["}[drawInt(t, 0, 4, "l")])
 		}
 		for i := 0; i < n; i++ {
-			if drawInt(t, 0, 11, "esc") == 0 {
+			if oneIn(t, 12, "esc") {
 				// a backslash followed by any printable character (escape handling of keys and values)
 				sb.WriteByte('\\')
 				sb.WriteByte(byte(drawInt(t, 0x21, 0x7e, "escc")))
@@ -119,6 +140,13 @@ func genBytes(t *rapid.T) []byte {
 }
 
 func GenC04(t *rapid.T) *C04Case {
+	if pick(t, "deep", 197, 3) == 1 {
+		max := 20000
+		if Thorough() {
+			max = deepNestingLimit
+		}
+		return &C04Case{Mode: "deep", Unit: deepUnits[drawIdx(t, len(deepUnits), "unit")], Depth: drawInt(t, 1000, max, "depth"), Closed: drawBool(t, "closed")}
+	}
 	if pick(t, "mode", 80, 20) == 0 {
 		return &C04Case{Mode: "bytes", Bytes: genBytes(t)}
 	}
@@ -128,7 +156,7 @@ func GenC04(t *rapid.T) *C04Case {
 		}
 		return GenString(t, 4)
 	}, LeafExtra: func(t *rapid.T) (V, bool) {
-		if drawInt(t, 0, 2, "tricky") == 0 {
+		if oneIn(t, 3, "tricky") {
 			return VStr(trickyString(t)), true
 		}
 		return V{}, false
@@ -451,6 +479,30 @@ func CheckC04(c *C04Case, st *Stats) error {
 		}
 		st.Count("mode.doc")
 		return checkDoc(*c.Root, st)
+	case "deep":
+		if _, ok := map[string]bool{"[": true, "{\"a\":": true, "[{\"k\":": true, "{\"\":[": true}[c.Unit]; !ok || c.Depth < 0 {
+			return nil
+		}
+		if c.Depth > deepNestingLimit && os.Getenv("VERIF_REPLAY") == "" {
+			st.Count("excluded.deep_nesting")
+			return nil
+		}
+		st.Count("mode.deep")
+		st.MarkNonTrivial()
+		text := deepText(c)
+		for _, call := range []struct {
+			name string
+			f    func() (any, error)
+		}{{"ParseList", callParseList(text)}, {"ParseObject", callParseObject(text)}} {
+			o, err := guarded(call.name, call.f)
+			if err != nil {
+				return errf("%v on %d nested %q (closed=%v)", err, c.Depth, c.Unit, c.Closed)
+			}
+			if !c.Closed && o.c != nil {
+				return errf("%s accepted %d unclosed %q", call.name, c.Depth, c.Unit)
+			}
+		}
+		return nil
 	}
 	return nil
 }
